@@ -81,6 +81,17 @@ func (l *evlog) add(name string, w, n int, res string) {
 	l.mu.Unlock()
 }
 
+func (l *evlog) has(name string, n int) bool {
+	l.mu.Lock()
+	defer l.mu.Unlock()
+	for _, e := range l.ev {
+		if e.Ev == name && e.N == n {
+			return true
+		}
+	}
+	return false
+}
+
 // ---------------------------------------------------------------- fault injecting net.Conn
 
 type faultConn struct {
@@ -316,6 +327,8 @@ func runScript(s script) *result {
 		case "peerBad":
 			l.add("PeerBad", 0, s.K, "")
 			peerCmd <- "bad" + strconv.Itoa(s.K)
+			// C08: the receive loop must not be blocked by the odd frame - a regular frame (n = 9) follows
+			peerCmd <- "in9"
 		case "peerEof":
 			l.add("PeerEof", 0, 0, "")
 			peerCmd <- "eof"
@@ -372,6 +385,15 @@ func runScript(s script) *result {
 	}
 	if s.Event == "writeFail" || s.Event == "readFail" || s.Event == "none" {
 		time.Sleep(10 * time.Millisecond)
+	}
+	if s.Event == "peerBad" {
+		// the regular frame that follows the odd one is delivered or the connection is closed - wait for either (a 1 MB frame
+		// takes its time on a loaded machine); only a receive loop that stays blocked runs into the deadline
+		for t0 := time.Now(); time.Since(t0) < 3*time.Second; time.Sleep(2 * time.Millisecond) {
+			if c, _ := sut.IsDataConnectionClosed(); c || l.has("DeliverIn", 9) {
+				break
+			}
+		}
 	}
 	// settle, then one late write per writer: it must return, with an error if the connection is closed
 	time.Sleep(40 * time.Millisecond)
